@@ -416,12 +416,40 @@ def h_eigvalsh(a, UPLO="L"):
     return kernel("eigvalsh", [a], [((n,), "r")], concrete=np.linalg.eigvalsh)[0]
 
 
+def _add_eq(c, lhs, rhs):
+    from .core import as_z3
+    for x, y in zip(np.asarray(lhs, dtype=object).flat, np.asarray(rhs, dtype=object).flat):
+        c.side.append(as_z3(lift(x).eq_solver(y)))
+
+
+def want_contract(name):
+    return name in getattr(cur(), "contracts", ())
+
+
 @handles(np.linalg.eigh)
 def h_eigh(a, UPLO="L"):
     a = sarr(a)
     n = a.shape[0]
     w = h_eigvalsh(a)
+    c = cur()
+    fresh = ("kernel", "eigh_vec", (lifted(a).key(),), ()) not in c.by_key
     v = kernel("eigh_vec", [a], [((n, n), "c")], concrete=lambda m: np.linalg.eigh(m)[1])[0]
+    if fresh and want_contract("eigh"):
+        V = np.asarray(v)
+        Vd = V.conj().T
+        # LAPACK reads the lower triangle only (UPLO='L') and ignores the imaginary part of the diagonal: the contract
+        # is stated for that Hermitian matrix, so it is true for every input and can never make the context inconsistent
+        L = lifted(a)
+        H = np.empty((n, n), dtype=object)
+        for i in range(n):
+            for j in range(n):
+                H[i, j] = L[i, j] if i > j else (L[j, i].conjugate() if i < j else L[i, i].real)
+        _add_eq(c, (V * np.asarray(w)[None, :]) @ Vd, H)
+        _add_eq(c, Vd @ V, np.identity(n, dtype=object))
+        from .core import as_z3
+        for k in range(n - 1):
+            c.side.append(as_z3(w[k] <= w[k + 1]))
+        c.stubs.add("contract eigh: V diag(w) V^dagger = M, V^dagger V = I, w ascending")
     return _EighResult(w, v)
 
 
@@ -459,8 +487,19 @@ def h_svd(a, full_matrices=True, compute_uv=True, hermitian=False):
         return s
     us = (m, m) if full_matrices else (m, k)
     vs = (n, n) if full_matrices else (k, n)
+    c = cur()
+    fresh = ("kernel", "svd_uv", (lifted(a).key(),), (full_matrices,)) not in c.by_key
     u, vh = kernel("svd_uv", [a], [(us, "c"), (vs, "c")], extra=(full_matrices,),
                    concrete=lambda x: (lambda r: (r[0], r[2]))(np.linalg.svd(x, full_matrices=full_matrices)))
+    if fresh and want_contract("svd"):
+        from .core import as_z3
+        U, W = np.asarray(u)[:, :k], np.asarray(vh)[:k, :]
+        _add_eq(c, (U * np.asarray(s)[None, :]) @ W, lifted(a))
+        for sv in np.asarray(s):
+            c.side.append(as_z3(sv >= 0))
+        for kk in range(k - 1):
+            c.side.append(as_z3(s[kk] >= s[kk + 1]))
+        c.stubs.add("contract svd: U diag(s) V^H = M, s >= 0 descending")
     return (u, s, vh)
 
 
